@@ -55,6 +55,8 @@ type RunResult struct {
 	LogHash    string         `json:"logHash"`
 	Final      string         `json:"final"`
 	Digest     string         `json:"digest"`
+	Digests    map[string]string `json:"-"`
+	NScenarios int            `json:"nScenarios,omitempty"`
 	Choices    []uint32       `json:"-"`
 	LogLines   []string       `json:"-"`
 }
@@ -64,6 +66,7 @@ type RunOpts struct {
 	Property string // selects scenario weights
 	Mutate   func(sc *Scenario, cfg *Config)
 	Forced   map[int]string // systematic fault placement: eligible call index -> fault kind
+	Only     int            // C19: 0 = all rollouts of the scenario set, i>0 = only the i-th (solo reference run)
 }
 
 // RunOne executes one complete simulated run inside a synctest bubble.
@@ -92,6 +95,30 @@ func runInBubble(tape *Tape, seed int64, opts RunOpts) *RunResult {
 	s := &Sim{T: tape, Stats: map[string]int{}, Probes: map[string]int{}}
 	s.start = time.Now()
 	sc, cfg := DrawScenario(tape, opts.Property)
+	scs := []*Scenario{sc}
+	if opts.Property == "C19" {
+		// two or three rollouts in one process: same names in another namespace, another workload in the same namespace
+		n := 2 + tape.Next(2)
+		for i := 1; i < n; i++ {
+			o, _ := DrawScenario(tape, opts.Property)
+			if i == 1 {
+				o.NS, o.Name = "ns2", "web" // same names (also the stable Service name), other namespace
+			} else {
+				o.NS, o.Name = "ns1", "api"
+			}
+			scs = append(scs, o)
+		}
+		for _, x := range scs {
+			x.Events = nil // plain releases: each rollout's terminal state is then independent of timing
+		}
+		if opts.Only > 0 {
+			if opts.Only > len(scs) {
+				opts.Only = len(scs)
+			}
+			scs = scs[opts.Only-1 : opts.Only]
+			sc = scs[0]
+		}
+	}
 	if opts.Mutate != nil {
 		opts.Mutate(sc, &cfg)
 	}
@@ -105,11 +132,15 @@ func runInBubble(tape *Tape, seed int64, opts RunOpts) *RunResult {
 	s.Store.OnCommit = append(s.Store.OnCommit, s.onCommit)
 	NewEnv(s)
 	s.Env.NativeHashCompat = sc.HashCompat
-	installOracles(s, sc)
+	for _, x := range scs {
+		installOracles(s, x)
+	}
 
 	// phase A: pre-existing cluster converges (no controller process, no delays)
 	s.Env.Fast = true
-	s.setupCluster(sc)
+	for i, x := range scs {
+		s.setupCluster(x, i == 0)
+	}
 	saved := s.Cfg
 	s.Cfg.MaxSteps = 100000
 	s.Cfg.MaxSimTime = time.Hour
@@ -131,7 +162,9 @@ func runInBubble(tape *Tape, seed int64, opts RunOpts) *RunResult {
 	s.start = time.Now()
 	p := NewProcess(s)
 	p.Start()
-	NewUser(s, sc)
+	for _, x := range scs {
+		NewUser(s, x)
+	}
 	s.Run()
 
 	for _, o := range s.Oracles {
@@ -144,7 +177,11 @@ func runInBubble(tape *Tape, seed int64, opts RunOpts) *RunResult {
 			}
 		}
 	}
-	res := &RunResult{Seed: seed, Scenario: sc, Config: cfg, Steps: s.Steps, SimSeconds: s.Elapsed().Seconds(), EndReason: s.EndReason,
+	digests := map[string]string{}
+	for _, x := range scs {
+		digests[x.NS+"/"+x.Name] = s.finalDigest(x)
+	}
+	res := &RunResult{Seed: seed, Scenario: sc, Digests: digests, NScenarios: len(scs), Config: cfg, Steps: s.Steps, SimSeconds: s.Elapsed().Seconds(), EndReason: s.EndReason,
 		Writes: len(s.Store.Log), Calls: s.callIdx, Stats: s.Stats, Probes: s.Probes, Violations: s.Violations, Trace: s.Trace,
 		LogHash: s.EvLog.Sum(), Choices: tape.Rec, LogLines: s.EvLog.Lines, Final: s.finalSummary(sc), Digest: s.finalDigest(sc)}
 	th := newHashLog(false)
@@ -255,6 +292,9 @@ func (s *Sim) finalDigest(sc *Scenario) string {
 	var sb strings.Builder
 	for _, k := range s.Store.keys {
 		o := s.Store.objs[k]
+		if !sc.owns(k) {
+			continue
+		}
 		switch k.GK {
 		case gkRollout:
 			ro := o.(*v1beta1.Rollout)
@@ -290,6 +330,9 @@ func (s *Sim) finalDigest(sc *Scenario) string {
 	imgs := map[string]int{}
 	for _, k := range s.Store.Keys(gkPod) {
 		p := s.Store.Peek(k).(*corev1.Pod)
+		if !sc.owns(k) {
+			continue
+		}
 		if p.DeletionTimestamp == nil && len(p.Spec.Containers) > 0 {
 			imgs[p.Spec.Containers[0].Image]++
 		}
